@@ -19,7 +19,7 @@ def gen_case(seed):
     swarm = {'shuffle': r.chance(70), 'dups': r.chance(50), 'burst': r.chance(50),
              'zero': r.chance(40), 'offgrid': r.chance(40), 'beyond': r.chance(30),
              'noise': r.chance(50), 'interrupt': r.chance(60), 'falsy': r.chance(40),
-             'shared': r.chance(50), 'helper': r.chance(30)}
+             'shared': r.chance(50), 'helper': r.chance(30), 'lists': r.chance(40)}
     ts_units = r.pick([1, 2, 4, 8, 8, 12, 16])
     horizon = r.pick([16, 32, 64, 96])        # in grid units
     nev = r.rint(1, 8)
@@ -56,6 +56,8 @@ def gen_case(seed):
                 prev = seen_times.setdefault(t, {})
                 if sv not in prev:
                     prev[sv] = 1000 * (i + 1) + (0 if sv == 's0' else 1)
+                    if sv == 's1' and swarm['lists']:
+                        prev[sv] = [i, i + 1]          # list-valued event values
                 change['env.' + sv] = prev[sv]
         if r.chance(20):
             change['aux.a%d' % i] = 500 + i
@@ -213,9 +215,8 @@ def check(case, run, stats=None):
                               'tick at clock %r: the event(s) due (%r) set %s=%r, the update does not: %r' % (
                                   clock, [t for t, _ in due], kk, val, up), ev['seq'])]
                 gv = spec.get('_value') if isinstance(spec, dict) else spec
+                # several events due in one tick act in time order: the later one has the last word
                 ok = values_equal(gv, val) and type(gv) == type(val)
-                if not ok and kk in alts:
-                    ok = any(values_equal(gv, a) for a in alts[kk])
                 if not ok:
                     return [V('C19', 'C19.event-value', 'plain',
                               'tick at clock %r: %s should be set to %r, the update says %r' % (clock, kk, val, spec), ev['seq'])]
